@@ -31,6 +31,7 @@ func (prop) CoqModule() string { return "Gengo.Corr.C13" }
 func (prop) Parallel() int     { return 6 }
 
 const modPath = "example.com/m"
+const depPath = "example.com/dep"
 
 type fileIn struct {
 	Name  string   `json:"name"`
@@ -46,6 +47,7 @@ type pkgIn struct {
 
 type input struct {
 	Pkgs  []pkgIn  `json:"pkgs"`
+	Dep   []pkgIn  `json:"dep,omitempty"` // packages of a second module (depPath) used through `replace depPath => ./depco`
 	Roots []string `json:"roots"` // patterns, relative to the module root
 	Procs int      `json:"procs"` // fresh processes
 	Loads int      `json:"loads"` // loads per process
@@ -97,10 +99,34 @@ func writeModule(dir string, in *input) error {
 	if err := os.MkdirAll(dir, 0o755); err != nil {
 		return err
 	}
-	if err := os.WriteFile(filepath.Join(dir, "go.mod"), []byte("module "+modPath+"\n\ngo 1.24.2\n"), 0o644); err != nil {
+	gomod := "module " + modPath + "\n\ngo 1.24.2\n"
+	if len(in.Dep) > 0 {
+		// a dependency whose sources live in a local checkout: Module.Dir is the replacement's directory,
+		// Module.Replace.Path ("./depco") is NOT an import-path prefix
+		gomod += "\nrequire " + depPath + " v0.0.0\n\nreplace " + depPath + " => ./depco\n"
+		if err := os.MkdirAll(filepath.Join(dir, "depco"), 0o755); err != nil {
+			return err
+		}
+		if err := os.WriteFile(filepath.Join(dir, "depco", "go.mod"), []byte("module "+depPath+"\n\ngo 1.24.2\n"), 0o644); err != nil {
+			return err
+		}
+	}
+	if err := os.WriteFile(filepath.Join(dir, "go.mod"), []byte(gomod), 0o644); err != nil {
 		return err
 	}
+	type placed struct {
+		root string
+		p    pkgIn
+	}
+	var all []placed
 	for _, p := range in.Pkgs {
+		all = append(all, placed{dir, p})
+	}
+	for _, p := range in.Dep {
+		all = append(all, placed{filepath.Join(dir, "depco"), p})
+	}
+	for _, pl := range all {
+		p, dir := pl.p, pl.root
 		pd := filepath.Join(dir, filepath.FromSlash(p.Dir))
 		if err := os.MkdirAll(pd, 0o755); err != nil {
 			return err
